@@ -20,7 +20,7 @@ def scenario(rng):
     coro = rng.choice([0.0, 0.0, 0.5, 1.0])
     scn = gen.rand_engine_scenario(
         rng, nested=0.45, fail=0.0, dense=rng.choice([0.6, 1.0]), guards=rng.random() < 0.3, validators=False,
-        coro=coro, yields=1, nsends=rng.randint(2, 7), unknown=("nope",), events=EVS,
+        coro=coro, yields=1, nsends=rng.randint(2, 7), unknown=("nope",), events=EVS, evcb_p=rng.choice([0.0, 0.3]),
         provs=rng.choice([["sm"], ["sm", "model"], ["sm", "l1"], ["sm", "model", "l1"]]))
     d = scn["classes"][0]
     # every group returns something; only before/on may reach the caller
